@@ -4,10 +4,12 @@ import vlib, kvcommon
 LEVEL = "proof"
 
 def check(run):
-    n = 24 if run.tier == "quick" else 400
-    ops = 300 if run.tier == "quick" else 2000
-    kvcommon.drive(run, "struct", n, ops, reopen=True, audit=True, boundary=(60 if run.tier == "quick" else 2000),
-                   destroy=(24 if run.tier == "quick" else 400), thin=(12 if run.tier == "quick" else 300), uplink=(40 if run.tier == "quick" else 1500), ringrun=(1 if run.tier == "quick" else 4), stalehead=(4 if run.tier == "quick" else 40))
+    # thorough sizes are chosen so that the tier ends in well under an hour on this machine (every batch of every script is
+    # followed by a run of the extracted auditor on the image)
+    n = 24 if run.tier == "quick" else 120
+    ops = 300 if run.tier == "quick" else 1500
+    kvcommon.drive(run, "struct", n, ops, reopen=True, audit=True, boundary=(60 if run.tier == "quick" else 500),
+                   destroy=(24 if run.tier == "quick" else 120), thin=(12 if run.tier == "quick" else 100), uplink=(40 if run.tier == "quick" else 400), ringrun=(1 if run.tier == "quick" else 2), stalehead=(4 if run.tier == "quick" else 16))
     return run.finish(level=LEVEL, rule=kvcommon.RULE, assumptions=kvcommon.ASSUME)
 
 def replay(run, path):
